@@ -1,3 +1,4 @@
+import IceTie.Lifecycle
 import IceModel.Gather
 import IceSpec.C09
 import IceProofs.GatherLedger
@@ -358,5 +359,57 @@ example : (IceSpec.C09.check {} "close" "ok"
     { st := none, gen := 0, led := [((.sock, some 0), 1), ((.tclient, some 0), 1)], opens := 4, closes := 2,
       pend := [(true, 0, "T0.0.u4.u4.0")] }).1
     = some "resources of the closed generation still open after Close returned" := by decide
+
+/-! ## Tie to the code (T, round 4): the done-channel chaining of 83e8561 and the release order, REGENERATED on every run
+(`IceGen.T_Lifecycle`) -/
+
+/-- the task of `GatherCandidates` reads the previous done channel BEFORE it stores the new one and spawns the goroutine last;
+`gatherCandidates` registers `close(done)` FIRST and the wait for the superseded cycle's channel SECOND on every path (deferred calls
+run in reverse: the wait, then the close), so a cycle's done channel is closed after that of the cycle it superseded and Close —
+which waits for the latest channel — waits for the gatherers of every cycle: in the model, `closeDeadline` is no earlier than the
+deadline of any parked gatherer of any cycle -/
+theorem C09_code_done_chaining :
+    (∀ state noHandler, IceGen.agent_GatherCandidates_task state noHandler
+      = if state != 1 then [IceModel.Eff.set "gatherErr" (IceModel.Val.s "ErrMultipleGatherAttempted")]
+        else if noHandler then [IceModel.Eff.set "gatherErr" (IceModel.Val.s "ErrNoOnCandidateHandler")]
+        else IceTie.Lifecycle.acceptEffs) ∧
+    (IceTie.Lifecycle.pos IceTie.Lifecycle.acceptEffs (IceTie.Lifecycle.c "gatherCandidateCancel()") = 0 ∧
+     IceTie.Lifecycle.pos IceTie.Lifecycle.acceptEffs (IceTie.Lifecycle.c "prevDone := a.gatherCandidateDone")
+        < IceTie.Lifecycle.pos IceTie.Lifecycle.acceptEffs (IceModel.Eff.set "a.gatherCandidateDone" (IceModel.Val.s "done")) ∧
+     IceTie.Lifecycle.pos IceTie.Lifecycle.acceptEffs (IceModel.Eff.set "a.gatherCandidateDone" (IceModel.Val.s "done"))
+        < IceTie.Lifecycle.pos IceTie.Lifecycle.acceptEffs (IceTie.Lifecycle.c "go gatherCandidates(ctx, done, prevDone)") ∧
+     IceTie.Lifecycle.acceptEffs.getLast? = some (IceTie.Lifecycle.c "go gatherCandidates(ctx, done, prevDone)")) ∧
+    (∀ stateErr applied policy, IceGen.agent_gatherCandidates stateErr applied policy
+      = [IceTie.Lifecycle.deferClose, IceTie.Lifecycle.deferWait, IceTie.Lifecycle.c "setGatheringState(Gathering)"] ++
+        (if stateErr || !applied then []
+         else [IceTie.Lifecycle.c "if GatherContinually: record lastKnownInterfaces through the loop", IceTie.Lifecycle.c "gatherCandidatesInternal"] ++
+           (if policy == 0 then [IceTie.Lifecycle.c "setGatheringState(Complete)"]
+            else if policy == 1 then [IceTie.Lifecycle.c "startNetworkMonitoring"] else []))) ∧
+    (∀ stateErr applied policy, (IceGen.agent_gatherCandidates stateErr applied policy).take 2 = [IceTie.Lifecycle.deferClose, IceTie.Lifecycle.deferWait]) ∧
+    (∀ (s : MState) (cur : Nat) (j : Job), j ∈ s.jobs → j.deadline ≤ closeDeadline s false cur false) :=
+  ⟨IceTie.Lifecycle.GatherCandidates_task_tie, IceTie.Lifecycle.GatherCandidates_task_order, IceTie.Lifecycle.gatherCandidates_tie, IceTie.Lifecycle.gatherCandidates_defers,
+   IceTie.Lifecycle.closeDeadline_covers_all⟩
+
+example : IceGen.agent_GatherCandidates_task 2 false = [IceModel.Eff.set "gatherErr" (IceModel.Val.s "ErrMultipleGatherAttempted")] ∧
+    IceGen.agent_GatherCandidates_task 1 false = IceTie.Lifecycle.acceptEffs ∧
+    IceGen.agent_gatherCandidates false false 0 = [IceTie.Lifecycle.deferClose, IceTie.Lifecycle.deferWait, IceTie.Lifecycle.c "setGatheringState(Gathering)"] := by decide
+
+/-- `removeUfragFromMux`: the local ufrag leaves each configured mux (TCP, UDP, srflx UDP, in this order);
+`deleteAllCandidates`: per network type every local candidate is closed and then the map entry deleted, then the same for the remote
+candidates; the model's `wipe` leaves no candidate, pair, transaction or selection -/
+theorem C09_code_release_order :
+    (∀ hasTcp hasUdp hasSrflx, IceGen.agent_removeUfragFromMux hasTcp hasUdp hasSrflx
+      = (if hasTcp then [IceTie.Lifecycle.c "tcpMux.RemoveConnByUfrag(localUfrag)"] else []) ++
+        (if hasUdp then [IceTie.Lifecycle.c "udpMux.RemoveConnByUfrag(localUfrag)"] else []) ++
+        (if hasSrflx then [IceTie.Lifecycle.c "udpMuxSrflx.RemoveConnByUfrag(localUfrag)"] else [])) ∧
+    IceGen.agent_deleteAllCandidates
+      = [IceTie.Lifecycle.c "for:localCandidates", IceTie.Lifecycle.c "close every candidate of the network type", IceTie.Lifecycle.c "delete(localCandidates, net)",
+         IceTie.Lifecycle.c "end:localCandidates", IceTie.Lifecycle.c "for:remoteCandidates", IceTie.Lifecycle.c "close every candidate of the network type",
+         IceTie.Lifecycle.c "delete(remoteCandidates, net)", IceTie.Lifecycle.c "end:remoteCandidates"] ∧
+    (∀ a : IceModel.AgentCore.Agent,
+      a.wipe.locals = [] ∧ a.wipe.remotes = [] ∧ a.wipe.checklist = [] ∧ a.wipe.pending = [] ∧ a.wipe.selected = none) :=
+  ⟨IceTie.Lifecycle.removeUfragFromMux_tie, IceTie.Lifecycle.deleteAllCandidates_tie, IceTie.Lifecycle.wipe_model⟩
+
+example : IceGen.agent_removeUfragFromMux false true false = [IceTie.Lifecycle.c "udpMux.RemoveConnByUfrag(localUfrag)"] := by decide
 
 end IceProps.C09
